@@ -122,6 +122,10 @@ theorem round_exact (F : Fmt) (hp : 1 ≤ F.p) (he : F.emin ≤ 0) (hmax : (F.p 
   have hne : ¬ ((n:ℚ) = 0) := by exact_mod_cast hn0
   simp only [hlt, hne, if_false]
 
+theorem ofInt_zero (F : Fmt) : FV.ofInt F 0 = .fin 0 := by
+  simp [FV.ofInt, FV.round, rne_zero, FV.zero, pow2_eq]
+  exact two_zpow_pos _
+
 /-- small integers convert exactly -/
 theorem ofInt_exact (F : Fmt) (hp : 1 ≤ F.p) (he : F.emin ≤ 0) (hmax : (F.p : ℤ) ≤ F.emax + 1) (n : ℤ) (hn0 : n ≠ 0)
     (hn : n.natAbs < 2^F.p) : FV.ofInt F n = .fin n := round_exact F hp he hmax n hn0 hn false
